@@ -36,7 +36,11 @@ def retarget(fam, case, new_id, k=0):
         return None
     d = netprops.FAMILIES[fam]
     game, default, extra = f(case.args)
-    if game is None or (extra.startswith("E") and extra[1] == ":"):
+    # an explicitly EMPTY host name ("-" on a family line) has no spelling in the extra-settings argument, where "-" means
+    # "not given" (the default host name): such cases are not retargeted
+    if game is None or (extra.startswith("E") and extra[1] in ":-" and fam in ("mcjava", "mcauto") and case.args[2] in ("", "-")):
+        return None
+    if extra.startswith("E") and extra[1] == ":":
         return None
     port, retries = case.args[d["port"]], case.args[d["retries"]]
     if int(port) == default and k % 2 == 0:
